@@ -298,6 +298,10 @@ func (d delivery) policy(seed uint64, addrs []string) Policy {
 // TestC06FirstDKG: a key generation from scratch over generated (scheme, n, t, listing order, leader, delivery schedule).
 func TestC06FirstDKG(t *testing.T) {
 	rec := stats.Open(t, "C06")
+	// The start of an execution is announced by the leader with a grace period; a node that hears of it later than that starts
+	// its phases late. The slowest generated link (900 ms + 150 ms) must stay below the grace period, as it does with the
+	// daemon's defaults (seconds), otherwise the schedule breaks the protocol's synchrony assumption by construction.
+	DKGConf.KickoffGracePeriod = 1300 * time.Millisecond
 	var nobody, total atomic.Int64
 	defer func() {
 		if n, k := nobody.Load(), total.Load(); n*3 > k {
@@ -437,6 +441,10 @@ func waitFor(max time.Duration, f func() error) error {
 // TestC06Reshare: a resharing on top of a completed epoch (written by the harness), over generated shapes.
 func TestC06Reshare(t *testing.T) {
 	rec := stats.Open(t, "C06")
+	// The start of an execution is announced by the leader with a grace period; a node that hears of it later than that starts
+	// its phases late. The slowest generated link (900 ms + 150 ms) must stay below the grace period, as it does with the
+	// daemon's defaults (seconds), otherwise the schedule breaks the protocol's synchrony assumption by construction.
+	DKGConf.KickoffGracePeriod = 1300 * time.Millisecond
 	var nobody, total atomic.Int64
 	defer func() {
 		if n, k := nobody.Load(), total.Load(); n*3 > k {
